@@ -8,16 +8,16 @@ BUILT = {
          "Generated op histories against a shadow map of every handed-out range, checked after every step, over the full configuration space; shrinks to a minimal history. Exploration: finds violations, proves nothing about unexplored histories.",
          "verif hooks trusted (transparent atomics, raw free-list walk); lifetime-extended borrowed handles dropped before their arena value", "5/C01"),
  "C02": ("engine-b", "exploration", "controlled-scheduler (baton) concurrency testing over the real sync::Arena with generated programs and schedules; shadow map + every-arena-write-misses-live-ranges oracle",
-         "2-4 real threads run the real lock-free code one atomic access at a time under a generated, shrinkable schedule (uniform, bursty, forced pre-emption inside the mark->unlink window) from generated free-list shapes; ranges checked at every return, every arena write event (atomic or zeroing) checked against all live ranges, bytes verified at release and at the end; forged node words as payloads.",
+         "2-4 (5 in the nested-removal-window program family) real threads run the real lock-free code one atomic access at a time under a generated, shrinkable schedule (uniform, bursty, one long pre-emption, thread 0 first, forced pre-emption inside the mark->unlink window) from generated free-list shapes; requests sized relative to the largest segment or to the segment at a generated list position; ranges checked at every return, every arena write event (atomic or zeroing) checked against all live ranges, bytes verified at release and at the end; forged node words as payloads.",
          "interleavings at the granularity of the crate's atomic accesses; sequentially consistent executions only", "4, 5/C02"),
- "C03": ("engine-a", "exploration", "model-based stateful property testing (proptest), capacity/alignment predicates over a 38-type table",
-         "Every successful allocation in generated histories is checked for the stated capacity, offset alignment and address alignment, including recycled segments, odd cursor residues and zero-size requests on full arenas.",
+ "C03": ("engine-a", "exploration", "model-based stateful property testing (proptest), capacity/alignment predicates over a 40-type table; 1/6 of the cases under the controlled scheduler (Engine B)",
+         "Every successful allocation in generated histories is checked for the stated capacity, offset alignment and address alignment, including recycled segments, odd cursor residues and zero-size requests on full arenas (5/6 Engine A histories); the same capacity / offset law is evaluated at every allocation return of 2-4 threads sharing one sync::Arena under a generated schedule (1/6 Engine B programs), so that compare-exchange retries after another thread moved the cursor are covered.",
          "same as C01", "5/C03"),
  "C04": ("engine-a", "exploration", "boundary-value stateful property testing under checked and unchecked builds, supervised worker processes",
-         "7/8 of the cases: boundary-dense huge sizes on every reachable state, same seeds under overflow-checked and unchecked builds; 1/8: Engine B programs on an exhausted shared arena where a returning (in particular a failing) call must not leave a segment it marked behind; panics are caught, signals are caught by the supervisor and minimised by delta debugging in child processes. The thorough tier adds a coverage-guided stage: the same interpreter as a libFuzzer target (cargo +nightly fuzz, AddressSanitizer, 16 jobs), so that any access outside the arena's heap block is a crash.",
+         "7/8 of the cases: boundary-dense huge sizes on every reachable state, same seeds under overflow-checked and unchecked builds; 1/8: Engine B programs on a shared arena - exhausted (a returning, in particular a failing, call must not leave a segment it marked behind) or with fresh space left and requests that cannot fit (u32::MAX-k, u32::MAX-allocated+d, capacity+d, remaining+d) racing small ones (every range returned meanwhile must lie in the data area and be disjoint from every live range); panics are caught, signals are caught by the supervisor and minimised by delta debugging in child processes. The thorough tier adds a coverage-guided stage: the same interpreter as a libFuzzer target (cargo +nightly fuzz, AddressSanitizer, 16 jobs), so that any access outside the arena's heap block is a crash.",
          "out-of-arena accesses are seen through consequences (signal, corrupted neighbour) in the quick tier", "5/C04"),
  "C05": ("engine-a", "exploration", "stateful property testing with close/reopen steps, state-before-close = state-after-open relation",
-         "Histories on real files cut by drop+reopen in the four open modes with same/larger/absent capacity; state tuple, free list and all handed-out bytes compared across each reopen; shadow map carried over so later allocations are checked against pre-close live ranges.",
+         "Histories (incl. clear / rewind / discard_freelist) on real files cut by drop+reopen in the four open modes and their *_with_path_builder forms with same/larger/absent capacity, read-only reopens with generated leftover write flags; state tuple, free list and all handed-out bytes compared across each reopen; shadow map carried over so later allocations are checked against pre-close live ranges.",
          "tmpfs files; durability (sync_all) not observable in-process", "5/C05"),
  "C06": ("engine-a", "fault_enumeration", "crash-point enumeration: memory() snapshot before every atomic access of every operation (verif hook), each reopened with map_mut and driven by a generated post-crash history",
          "One generated history is executed once while every atomic step is recorded as a crash point (copy of memory() = what a MAP_SHARED file holds at that instant). quick evaluates <= 32 points per history (all steps of one free-list operation + a sample), thorough all of them: reopen, cursor range, pre-crash live bytes, then a generated post-crash history with the pre-crash live ranges in the shadow map and a no-progress budget for termination.",
@@ -29,8 +29,8 @@ BUILT = {
          "Every owner dirties its range; every alloc_bytes/alloc_bytes_owned return is checked byte-for-byte for zero across fresh, rewound, top-released, recycled and reopened space (5/6 Engine A histories) and across ranges recycled between threads under a generated schedule (1/6 Engine B programs).",
          "same as C01", "5/C08"),
  "C09": ("file-engine", "exploration", "mutation-based property testing of every open variant against a field-level validity oracle; byte-for-byte file comparison; read-only op sessions; supervised worker processes",
-         "A valid arena file from a generated history (with stale bytes above the cursor) is mutated (identification bytes, truncation, arbitrary replacement, wrong expected options) and opened through all four variants; refused opens must be refused exactly when the decoded fields demand it and must leave the file prefix identical. Read-only sessions run generated sequences over the safe mutating API: ReadOnly / documented panic / unchanged state, never a signal, file identical afterwards.",
-         "with_truncate(true), create_new on an existing path and remove_on_drop(true) excluded by the statement's own exclusions", "5/C09"),
+         "A valid arena file from a generated history (with stale bytes above the cursor) is mutated (identification bytes, truncation, arbitrary replacement, wrong expected options) and opened through all eight variants (map_mut / map_copy / map / map_copy_read_only and their *_with_path_builder forms), read-only variants also with any combination of truncate / append / create / create_new / write left set on the Options; refused opens must be refused exactly when the decoded fields demand it and must leave the file prefix identical. Read-only sessions run generated sequences over the safe mutating API: ReadOnly / documented panic / unchanged state, never a signal, file identical afterwards.",
+         "for writable opens with_truncate(true), create_new on an existing path and remove_on_drop(true) are excluded (the caller asked for the change / the OS refuses first / documented deletion)", "5/C09"),
  "C10": ("engine-a", "exploration", "stateful property testing, free-list snapshot invariants + policy predicate on the serving node",
          "After every step the raw free-list snapshot is checked for well-formedness and ordering; every allocation that fresh space cannot satisfy is checked against the Optimistic/Pessimistic/None policy and the remainder rule.",
          "snapshot accessor is a raw bounded walk added under the verif feature", "5/C10"),
@@ -38,10 +38,10 @@ BUILT = {
          "The same generated config and single-threaded history (whole trait surface incl. rewind/clear/set_minimum_segment_size/increase_discarded/discard_freelist) is run on both flavours; result kinds, ranges, counters and free-list snapshots must agree after every step; one-sided panics or oracle failures are violations.",
          "memory() bytes are not compared (not in the statement; see DESIGN.md section 9)", "5/C11"),
  "C12": ("engine-b", "exploration", "controlled-scheduler concurrency testing with a FastTrack-style vector-clock race detector fed by the orderings the code passes to its atomics",
-         "Programs with cross-thread hand-over of recycled ranges, owned buffers sent between threads, arena clones dropped on other threads; happens-before is computed from the actual Ordering arguments reported by the hook; any unordered pair of accesses to a common byte with a non-atomic side is a violation.",
+         "Programs with cross-thread hand-over of recycled ranges, owned buffers sent between threads, arena clones dropped on other threads, and a program family that nests removal windows on neighbouring nodes of one list (up to 5 threads, every marker pre-empted after its mark); happens-before is computed from the actual Ordering arguments reported by the hook; any unordered pair of accesses to a common byte with a non-atomic side is a violation.",
          "judged on sequentially consistent interleavings; SeqCst treated as AcqRel", "4.4, 5/C12"),
  "C13": ("engine-a", "exploration", "stateful property testing (release-exactly-once predicates, drop counters, refs() model, unmount event counter) + controlled-scheduler clone/drop interleavings with a reference-count oracle",
-         "Clone/alloc/to-owned/detach/drop in any order incl. original first, with a generated teardown order; per-drop state delta must equal exactly one dealloc of the buffer extent; Unmount event exactly once at the last holder. One case in six is a multi-threaded Engine B program (clones, owned buffers sent between threads) in which every access to the reference count must observe the model's number of live arena values and the memory is released once, by the last holder, under the scheduler.",
+         "Clone/alloc/to-owned/detach/drop in any order incl. original first, with a generated teardown order; per-drop state delta must equal exactly one dealloc of the buffer extent; values of drop-counting types (sized, and zero-sized guard types) dropped exactly once by the time their non-detached handle is gone; Unmount event exactly once at the last holder. One case in six is a multi-threaded Engine B program (clones, owned buffers sent between threads) in which every access to the reference count must observe the model's number of live arena values and the memory is released once, by the last holder, under the scheduler.",
          "Unmount event at the top of Memory::unmount stands for the release of the backing store", "5/C13"),
  "C14": ("buffer-engine", "exploration", "property testing of every buffer writer/reader against a reference encoder with whole-arena before/after snapshots and canary neighbours; round-trip relations",
          "One generated buffer (fresh / recycled / aligned at odd cursor, borrowed / owned, capacity 0..96, any fill level) between canary neighbours; 1..5 generated calls over 12 integer types x 3 byte orders, LEB128, slices, set_len, align_to/put/put_aligned over the type table; out-of-buffer bytes compared byte for byte after every call; checked and unchecked builds.",
@@ -59,7 +59,7 @@ BUILT = {
          "truncate(n) for n around allocated/capacity and up to 4x capacity on the three backends after histories with free list and detached live data; capacity law, unchanged state and bytes, later fitting allocations must succeed.",
          "truncate only while refs()==1 and no handle object exists", "5/C18"),
  "C19": ("checksum-engine", "exploration", "property testing: chunked checksum == one-shot checksum by the same builder, with a position-sensitive second builder",
-         "Allocated lengths hit exactly at k*page-2..k*page+2 for k<=3 plus random lengths, reserved 0..=64, three backends; checksum(b) compared with b.checksum_one(allocated_memory()[reserved..]) for Crc32 and a position-weighted sum that detects dropped/repeated/reordered chunks.",
+         "Allocated lengths hit exactly at k*page-2..k*page+2 for k<=3 plus random lengths, reserved 0..=64, three backends; checksum(b) compared with b.checksum_one(allocated_memory()[reserved_bytes()..]) - both sides as the arena reports them - for Crc32 and a position-weighted sum that detects dropped/repeated/reordered chunks.",
          "page size is the host's (4096)", "5/C19"),
  "C20": ("engine-a", "exploration", "stateful property testing, per-step discarded() delta predicates against free-list snapshots",
          "Per-step accounting predicates for discarded(): monotone, increase_discarded, None-release, too-small release never reused, discard_freelist sum/empty list.",
@@ -101,7 +101,7 @@ def main():
             {"name": "reader-engine", "path": "/verif/harness/src/props/small.rs", "serves_properties": ["C15"], "kind_free_text": "micro-case property engine for the arena-level get_* readers"},
             {"name": "checksum-engine", "path": "/verif/harness/src/props/small.rs", "serves_properties": ["C19"], "kind_free_text": "micro-case property engine for Allocator::checksum"},
             {"name": "file-engine", "path": "/verif/harness/src/props/c09.rs", "serves_properties": ["C09"], "kind_free_text": "file mutator + read-only session engine on top of Engine A's file builder"},
-            {"name": "engine-b", "path": "/verif/harness/src/engb.rs", "serves_properties": ["C02", "C04", "C07", "C08", "C12", "C13"], "kind_free_text": "controlled scheduler: real threads, real sync::Arena, baton passed at every atomic access (verif hook) following a generated schedule; shadow map, stall detector, vector-clock race detector"},
+            {"name": "engine-b", "path": "/verif/harness/src/engb.rs", "serves_properties": ["C02", "C03", "C04", "C07", "C08", "C12", "C13"], "kind_free_text": "controlled scheduler: real threads, real sync::Arena, baton passed at every atomic access (verif hook) following a generated schedule; shadow map, stall detector, vector-clock race detector"},
             {"name": "fuzz-hist", "path": "/verif/harness/fuzz/fuzz_targets/hist.rs", "serves_properties": ["C04"], "kind_free_text": "libFuzzer + AddressSanitizer target over the Engine A interpreter (structure-aware byte decoder in harness/src/fuzzdec.rs); thorough tier of C04"},
             {"name": "engine-a", "path": "/verif/harness/src/enga.rs", "serves_properties": [p for p in ALL if p in BUILT and BUILT[p][0] == "engine-a"], "kind_free_text": "single-threaded model-based history interpreter driven by proptest strategies; shadow map + free-list snapshot oracles; worker processes under a supervisor"},
         ],
